@@ -34,8 +34,13 @@ const FAILS: &[(&str, &str)] = &[("1 0 /", "/"), ("\"boom\" error", "error"), ("
 
 fn inject(r: &mut crate::rng::Rng, prog: &str) -> (String, Option<&'static str>) {
     let toks: Vec<&str> = prog.split(' ').filter(|t| !t.is_empty()).collect();
-    match r.below(8) {
+    match r.below(9) {
         0 => (prog.to_string(), None),
+        7 => { // a structure still open when the text ends: found out at the end of the input, which is what gets blamed
+            let open = *r.pick(&["true if 1 2 +", ": unfinished 1", "[ 3", "{ 1", "begin 1", "3 0 do I", "1 case 1 of 2", "#( 1 2", "true if 1 else 2", ": uf true if 1"]);
+            let trail = *r.pick(&["", " ", "\n", "\r\n\t", " \\ trailing comment", "\n\n"]);
+            (format!("{} {}{}", prog, open, trail), Some("<end-of-input>"))
+        }
         1 => { // unknown word somewhere
             let i = r.below(toks.len() + 1);
             let mut t: Vec<String> = toks.iter().map(|x| x.to_string()).collect();
@@ -119,8 +124,26 @@ pub fn run(ctx: &mut Ctx) {
                 d.heap.iter().map(canon::cell).collect::<Vec<_>>().join(","),
                 d.data_visible.iter().map(canon::cell).collect::<Vec<_>>().join(","), LIMIT);
             let is_build_err = { let mut probe = xs.clone(); matches!(crate::guarded(|| probe.compile(&text)), Some(Err(_))) };
-            xs.set_insn_limit(Some(LIMIT)).unwrap();
-            let r = crate::guarded(|| xs.eval(&text));
+            // mostly a generous instruction limit; sometimes one that the program runs into: being refused is a run-time
+            // failure of the refused instruction's word like any other, and is located like any other
+            // (setting the limit starts the count afresh)
+            let limit = if ctx.rng.chance(12) { ctx.tag("limit:small"); 2 + ctx.rng.below(60) } else { LIMIT };
+            xs.set_insn_limit(Some(limit)).unwrap();
+            let setup = setup.replace(&format!("lim={}/-/-", LIMIT), &format!("lim={}/-/-", limit));
+            // some sources are files given to `eval_file` / `compile_file` (what the binary does with its script arguments):
+            // their failures name the file (files are outside the model: oracle only)
+            let as_file: Option<String> = if ctx.rng.chance(12) {
+                let dir = crate::lib_files(&ctx.scratch);
+                let path = format!("{}/src{}-{}.xeh", dir, done, nsrc);
+                std::fs::write(&path, &text).unwrap();
+                ctx.tag("source:file");
+                Some(path)
+            } else { None };
+            let expected_name = as_file.clone().unwrap_or_else(|| format!("<buffer#{}>", nsrc));
+            let r = match &as_file {
+                Some(path) => if ctx.rng.bool() { crate::guarded(|| xs.eval_file(Xstr::from(path.as_str()))) } else { crate::guarded(|| xs.compile_file(Xstr::from(path.as_str())).and_then(|_| xs.run())) },
+                None => crate::guarded(|| xs.eval(&text)),
+            };
             texts.push(text.clone());
             if !is_build_err && ctx.rng.chance(30) { again = Some(text.clone()); }
             let answer = match &r {
@@ -129,9 +152,15 @@ pub fn run(ctx: &mut Ctx) {
                 Some(Err(e)) => {
                     let kind = if is_build_err { "builderr" } else { "err" };
                     match xs.last_err_location() {
-                        None => format!("{} {} noloc", kind, canon::err(e)),
+                        None => {
+                            if !is_build_err {
+                                // a failure while running always happens at some instruction, and that instruction has a token
+                                ctx.oracle_fail(format!("C17 source #{} `{}` ({})", nsrc, text.escape_debug(), canon::err(e)), "a location (the word that failed)".into(), "no location".into());
+                            }
+                            format!("{} {} noloc", kind, canon::err(e))
+                        }
                         Some(loc) => {
-                            let same_buf = loc.token.parent().as_str() == text && loc.filename.as_str() == format!("<buffer#{}>", nsrc);
+                            let same_buf = loc.token.parent().as_str() == text && loc.filename.as_str() == expected_name;
                             let start = loc.token.range().start;
                             // ---- oracle: self-consistency against an independent count over the named buffer's text
                             let case = format!("C17 source #{} `{}`", nsrc, text.escape_debug());
@@ -146,6 +175,13 @@ pub fn run(ctx: &mut Ctx) {
                             if let Xerr::UnknownWord(w) = e {
                                 ctx.check(loc.token.as_str() == w.as_str(), || case.clone(), || format!("token = unknown word {}", w), || loc.token.to_string());
                             }
+                            if marker == Some("<end-of-input>") && is_build_err && same_buf {
+                                // nothing after the last token is to blame but the end of the text itself: an empty token there
+                                let r = loc.token.range();
+                                ctx.check(r.start == text.len() && r.end == text.len(), || case.clone(), || format!("the empty token at the end of the text ({})", text.len()), || format!("{:?} at {}..{}", loc.token.as_str(), r.start, r.end));
+                                ctx.tag("oracle:end-of-input");
+                            }
+                            let marker = if marker == Some("<end-of-input>") { None } else { marker };
                             let in_meta = text.contains("#(");
                             if let (Some(m), true) = (marker, !is_build_err || in_meta) {
                                 if !format!("{:?}", e).contains("limit reached") && same_buf {
@@ -154,12 +190,12 @@ pub fn run(ctx: &mut Ctx) {
                             }
                             // the error belongs to the buffer that was just submitted unless it was raised inside a word defined earlier
                             if is_build_err {
-                                ctx.check(same_buf, || case.clone(), || format!("<buffer#{}>", nsrc), || loc.filename.to_string());
+                                ctx.check(same_buf, || case.clone(), || expected_name.clone(), || loc.filename.to_string());
                             } else if !in_meta && xs.verif_dump().ip >= d.code_len {
                                 // a run-time failure at an instruction this very source compiled: the location names this buffer,
                                 // however many earlier sources had the same text
                                 ctx.check(same_buf, || format!("{} (failing instruction {} is in the code of this source, which starts at {})", case, xs.verif_dump().ip, d.code_len),
-                                    || format!("<buffer#{}>", nsrc), || loc.filename.to_string());
+                                    || expected_name.clone(), || loc.filename.to_string());
                             }
                             if !same_buf { ctx.tag("loc:earlier-buffer"); "earlier-buffer".to_string() } else {
                                 format!("{} {} tok={} file={} line={} col={} whole={}", kind, canon::err(e), tok_index(&t, start, text.len()),
@@ -170,11 +206,28 @@ pub fn run(ctx: &mut Ctx) {
                 }
             };
             ctx.tag(&format!("result:{}", answer.split(' ').next().unwrap_or("")));
-            if answer != "earlier-buffer" {
+            if answer != "earlier-buffer" && as_file.is_none() {
                 ctx.case(format!("C17 fail {}", setup), answer);
             }
             if r.as_ref().map(|x| x.is_err()).unwrap_or(true) && ctx.rng.chance(50) { break; }
         }
+    }
+    // a file that cannot be read: no token of any source is to blame, least of all the one an earlier failure pointed at
+    // (repair 7c4ad93)
+    for _ in 0..8 {
+        let mut xs = Xstate::boot().unwrap();
+        xs.intercept_stdout(true);
+        let first = *ctx.rng.pick(&["1 nosuchword", "1 0 /", ": f nil 1 + ; f", "then"]);
+        let _ = crate::guarded(|| xs.eval(first));
+        let before = xs.last_err_location().map(|l| l.token.to_string());
+        let path = format!("{}/no-such-dir/no-such-file-{}.xeh", ctx.scratch, ctx.rng.below(1000));
+        let r = if ctx.rng.bool() { crate::guarded(|| xs.eval_file(Xstr::from(path.as_str()))) } else { crate::guarded(|| xs.compile_file(Xstr::from(path.as_str()))) };
+        let after = xs.last_err_location().map(|l| l.token.to_string());
+        let msg = xs.pretty_error().unwrap_or_default();
+        ctx.check(matches!(r, Some(Err(_))) && before.is_some() && after.is_none() && !msg.contains(first),
+            || format!("C17 `{}` fails, then a file that does not exist is submitted", first), || "an error without a location; the earlier failure's token is not quoted".into(),
+            || format!("{:?}; location before {:?}, after {:?}; message {:?}", r.map(|x| x.is_ok()), before, after, msg));
+        ctx.tag("kind:unreadable-file");
     }
     // one compiled source that fails twice: `run` stops at the first failing word; the cause is removed (values are
     // pushed) and `run` is called again: it resumes, and the second failure has its own location, not the first one's
